@@ -203,6 +203,46 @@ def offset_locals(ph):
     return out
 
 
+def no_delete_on_refusal(F, S, roots=None):
+    """R-ORDER: creating an archive never removes or renames what is at the destination path because of a refusal: a call that
+    deletes / renames a path (XFile::DeletePath, RenameFile, std::filesystem remove / rename) in the creation code is allowed
+    only inside a handler whose try block starts after the output FileWriter was constructed in the same function (cleaning
+    up a file this call has itself created). A handler that also covers the checks made before creation would delete a
+    volume that was there before the refused call."""
+    from ..through import closure
+    out = []
+    n = 0
+    for root in (roots if roots is not None else [F.fn(VOL + "::CreateArchive", nparams=2), F.fn(AR + "ClmFile::CreateArchive", nparams=2)]):
+        for f_ in (closure(F, root, depth=3) if roots is None else [root]):
+            pm = f_.parent_map()
+            fw = [nd["id"] for nd in f_.nodes if (nd["k"] in CTORS and (nd.get("ctor_rec") or "").endswith("Stream::FileWriter")) or
+                  (nd["k"] == "DeclStmt" and any((d.get("rec") or "").endswith("Stream::FileWriter") for d in nd.get("decls", [])))]
+            for nd in f_.nodes:
+                if nd["k"] not in CALLS:
+                    continue
+                fq = nd.get("fq") or ""
+                last = fq.split("::")[-1]
+                if not (fq in ("OP2Utility::XFile::DeletePath", "OP2Utility::XFile::RenameFile") or ("filesystem" in fq and last in ("remove", "remove_all", "rename"))):
+                    continue
+                n += 1
+                # the try statement whose handler contains this call
+                cur = nd["id"]
+                trystmt = None
+                while cur in pm:
+                    cur = pm[cur]
+                    if f_.n(cur)["k"] == "CXXCatchStmt":
+                        trystmt = pm.get(cur)
+                        break
+                inst = "%s#destructive-call@%s" % (f_.qn, nd.get("l"))
+                req = "a path is deleted / renamed by the archive creators only to clean up a file this call created (handler of a try block that starts after the FileWriter construction)"
+                if trystmt is not None and fw and min(fw) < trystmt:
+                    out.append(ok("R-ORDER", inst, f_.loc(nd["id"]), f_.qn, req, "clean-up after creation"))
+                else:
+                    out.append(bad("R-ORDER", inst, f_.loc(nd["id"]), f_.qn, req,
+                                   "%s can run when a refusal made before the output file is created propagates: a file that existed at the destination before the call is removed" % last))
+    return out, n
+
+
 def vol_refuse_before_create(F, S):
     """R-ORDER: every refusal reachable from CreateArchive precedes the construction of the output FileWriter."""
     out = []
@@ -369,5 +409,10 @@ def check(F, run, tier):
     run.add(chain)
     run.add(vol_offsets(F, S, size_chain_ok=all(o.status == "discharged" for o in chain)))
     run.add(vol_refuse_before_create(F, S))
+    _on, _nn = no_delete_on_refusal(F, S)
+    run.add(_on)
+    _fx = [f for f in F.fixture_functions.values() if f.qn == "fixture::SaveChecked"]
+    run.fixture("fixtures/raw_read.cpp: a clean-up handler that deletes the destination and also covers the pre-creation check is reported by R-ORDER",
+                bool(_fx) and any(x.status == "violated" for x in no_delete_on_refusal(F, S, roots=_fx)[0]))
     run.add(clm_names(F, S))
     run.add(frame_layers(F, S))
